@@ -22,6 +22,7 @@ RULES = {
     'R4': 'WRITERS of the announced-header bookkeeping are the three bookkeeping functions',
     'R5': 'EXPR/TABLE of the announced-header height bookkeeping the sync gate reads',
     'R6': 'every state field the three gates read is carried across upgrades (serialised, or re-attached stable memory)',
+    'R7': 'the flags and the network the gates read are the configured ones: Config::from(InitConfig) carries every field (default otherwise), init copies api_access / disable_api_if_not_fully_synced / network into the state unconditionally, set_config overwrites each setting from the request field of the same name',
 }
 ASSUMPTIONS = ['a trap rolls back all state changes of the message (IC semantics); R3 shows that nothing precedes the gates anyway']
 
@@ -351,3 +352,15 @@ def r6(ctx, vfns):
     ctx.floor('R6', 'state fields read by the gates', n, 6)
     if not any(o.rule == 'R6' and o.status != 'discharged' and not o.key.startswith('floor') for o in getattr(ctx, 'obs', [])):
         ctx.ok('R6', 'gate-inputs-survive-upgrades', '', 'all %d state fields read by the three gates are serialised (or backed by stable memory)' % n)
+
+
+# plumbing between the interface and the analysed functions (rules/plumbing.py)
+_run_before_plumbing = run
+
+
+def run(ctx):
+    _run_before_plumbing(ctx)
+    from rules import plumbing
+    plumbing.config_from_init(ctx, 'R7')
+    plumbing.init_applies_config(ctx, 'R7', fields=('api_access', 'disable_api_if_not_fully_synced'))
+    plumbing.set_config_same_name(ctx, 'R7')
